@@ -3,7 +3,9 @@ CONSTANTS
   NameMask = 4095
   Family = "quick"
   MaxKeys = 2
+  MaxEdits = 1
   Defect = "none"
 INVARIANT OrderInv
 INVARIANT ShapeInv
+INVARIANT StageFromSlot
 CHECK_DEADLOCK FALSE
